@@ -756,6 +756,7 @@ func (ft *FuncTr) computeLoopMods(l *LoopInfo) error {
 			if nx, ok := in.(*ssa.Next); ok {
 				if r, ok := nx.Iter.(*ssa.Range); ok {
 					l.modIters[r] = true
+					l.modGhost[iterKeyName(r)] = ft.w.sortOf(ft.d, r.X.Type().Underlying().(*types.Map).Key())
 				}
 			}
 			if call, ok := in.(*ssa.Call); ok {
